@@ -5,7 +5,7 @@ use log::debug;
 use super::errors::IncludeError;
 use program_structure::ast::Include;
 use program_structure::report::{Report, ReportCollection};
-use std::collections::HashSet;
+use std::collections::{HashMap, HashSet};
 use std::ffi::OsString;
 use std::fs;
 use std::path::PathBuf;
@@ -18,6 +18,8 @@ pub struct FileStack {
     user_inputs: HashSet<PathBuf>,
     libraries: Vec<Library>,
     stack: Vec<PathBuf>,
+    /// The include statement which added a file to the stack (the first one).
+    included_from: HashMap<PathBuf, Include>,
 }
 
 #[derive(Debug)]
@@ -37,6 +39,7 @@ impl FileStack {
             user_inputs: HashSet::new(),
             libraries: Vec::new(),
             stack: Vec::new(),
+            included_from: HashMap::new(),
         };
         result.add_libraries(libs, reports);
         result.add_files(paths, reports);
@@ -118,6 +121,7 @@ impl FileStack {
             Ok(path) if !path.is_dir() => {
                 if !self.black_paths.contains(&path) {
                     debug!("adding local or absolute include `{}`", location.display());
+                    self.included_from.entry(path.clone()).or_insert_with(|| include.clone());
                     self.stack.push(path);
                 }
                 Ok(())
@@ -136,6 +140,7 @@ impl FileStack {
                 debug!("searching for `{}` in `{}`", include.path, lib.path.display());
                 if let Some(path) = fs::canonicalize(&libpath).ok().filter(|path| !path.is_dir()) {
                     debug!("adding include `{}` from directory", libpath.display());
+                    self.included_from.entry(path.clone()).or_insert_with(|| include.clone());
                     self.stack.push(path);
                     return Ok(());
                 }
@@ -146,6 +151,9 @@ impl FileStack {
                     debug!("checking if `{}` matches `{}`", include.path, lib.path.display());
                     if lib.name.as_ref() == Some(&pathos) {
                         debug!("adding include `{}` from file", lib.path.display());
+                        self.included_from
+                            .entry(lib.path.clone())
+                            .or_insert_with(|| include.clone());
                         self.stack.push(lib.path.clone());
                         return Ok(());
                     }
@@ -181,5 +189,15 @@ impl FileStack {
 
     pub fn is_user_input(&self, path: &PathBuf) -> bool {
         self.user_inputs.contains(path)
+    }
+
+    /// Returns the include statement which added the file to the stack, if the file is not
+    /// one of the files given by the user.
+    pub fn included_from(&self, path: &PathBuf) -> Option<&Include> {
+        if self.is_user_input(path) {
+            None
+        } else {
+            self.included_from.get(path)
+        }
     }
 }
